@@ -19,8 +19,8 @@ UNITS = {
                                   '^_ZNSt12_Vector_baseINSt7__cxx1112basic_stringIcSt11char_traitsIcESaIcEEESaIS5_EE1[13]_M_(de)?allocateE', '^_ZNSt12_Vector_baseIcSaIcEE1[13]_M_(de)?allocateE']),
 }
 BOUNDS = ('every input string has a concrete length per query (case split): split / split_context / split_args 0..3 bytes quick, 0..5 / 0..4 / 0..5 thorough; '
-          'join 0..3 items of 0..2 bytes (4 items thorough); strip_* 0..4 (0..6); starts/ends_with strings 0..3 x prefixes 0..2 (0..4 x 0..3); toupper/tolower/skip_* 0..3 (0..5); '
-          'str_replace_all strings 0..3 (0..4), target 1..2, replacement 0..2 bytes; string_printf results 0..3 (0..8) bytes. Bytes range over all 256 values, delimiters over all 256 values, '
+          'join 0..3 items of 0..2 bytes; strip_* 0..4 (0..6); starts/ends_with strings 0..3 x prefixes 0..2 (0..4 x 0..3); toupper/tolower/skip_* 0..3 (0..5); '
+          'str_replace_all strings 0..3 (len 4 only with empty replacement), target 1..2, replacement 0..2 bytes; string_printf results 0..3 (0..8) bytes. Bytes range over all 256 values, delimiters over all 256 values, '
           'max_splits over [0, len+1], flags symbolic. Every std::string <= 15 bytes in the P and R encodings.')
 STUBS = ['vasprintf (h_printf.c): CONTRACT stub - returns LEN symbolic bytes in a malloc buffer, or NULL/-1; string_printf itself is only checked as the wrapper around it',
          'std::string::_M_create cut to a reported bound failure (sso_bound.c): strings longer than 15 bytes are outside the P and R encodings',
@@ -81,7 +81,7 @@ def queries(tier):
     for which, nm in ((2, 'toupper'), (3, 'tolower')):
         for L in ([0, 1, 3] if quick else [0, 1, 2, 3, 4, 5]):
             qs.append(Q('%s_len%d' % (nm, L), 'P64', 'h_misc.c', {'WHICH': which, 'LEN': L}, L + 2, nm + ' vs reference', 'len(s) == %d, all byte values' % L))
-    for L, T, R in ([(0, 1, 1), (1, 1, 0), (2, 1, 2), (2, 2, 1), (3, 2, 0), (3, 1, 1)] if quick else [(l, t, r) for l in range(0, 5) for t in (1, 2) for r in (0, 1, 2)]):
+    for L, T, R in ([(0, 1, 1), (1, 1, 0), (2, 1, 2), (2, 2, 1), (3, 2, 0), (3, 1, 1)] if quick else [(l, t, r) for l in range(0, 5) for t in (1, 2) for r in (0, 1, 2) if l < 4 or r == 0]):  # len 4 with a non-empty replacement: > 6 GB
         qs.append(Q('replace_len%d_t%d_r%d' % (L, T, R), 'P64', 'h_misc.c', {'WHICH': 4, 'LEN': L, 'TL': T, 'RL': R}, 2 * L + 3, 'str_replace_all vs reference',
                     'len(s) == %d, target %d bytes, replacement %d bytes (non-NUL), all byte values' % (L, T, R)))
     for which, nm in ((5, 'skip_whitespace'), (6, 'skip_non_whitespace'), (7, 'skip_word')):
@@ -94,7 +94,7 @@ def queries(tier):
     qs.append(Q('printf_null', 'P64', 'h_printf.c', {'LEN': 1, 'FAIL': 1}, 3, 'vasprintf yields NULL => bad_alloc', 'vasprintf failure'))
     jc = [(0, 2, 0, 1), (1, 2, 0, 1), (1, 2, 2, 1), (2, 2, 0, 1), (2, 2, 1, 2), (2, 2, 2, 1), (3, 1, 0, 1)]
     if not quick:
-        jc += [(3, 2, 0, 1), (3, 1, 1, 2), (3, 1, 2, 1), (4, 1, 0, 1)]
+        jc += [(3, 2, 0, 1), (3, 1, 1, 2), (3, 1, 2, 1)]  # 4 items: no verdict in 900 s
     for C, ml, mode, dn in jc:
         qs.append(Q('join_%s_n%d_l%d' % (('char', 'str%d' % dn, 'nodelim')[mode], C, ml), punit(C), 'h_join.c', {'COUNT': C, 'ML': ml, 'MODE': mode, 'DN': dn}, ml * C + dn * C + 3,
                     'join of %d items (lengths symbolic 0..%d, symbolic bytes) equals the reference concatenation' % (C, ml), '%d items of 0..%d bytes, delimiter %s' % (C, ml, ('1 char', '%d-byte string' % dn, 'none')[mode])))
